@@ -398,6 +398,10 @@ class Scheduler:
             return
         self.current = chosen
         chosen.last_run = self.points
+        if lt.state == "run":
+            # a preempted thread goes to the back of the queue: by default it stays
+            # descheduled until the others block (resuming it earlier is a deviation)
+            lt.last_run = self.points
         self._grant(chosen)
         if lt.state != "done":
             self._park(lt)
